@@ -36,5 +36,5 @@ package checksumutils
 
 //@ func verifStreamingEqualsOneShot
 //@ mode nosafety
-//@ bounded 3000
+//@ bounded 1200
 //@ ensures[C35:streaming-digests-equal-one-shot-digests] result
